@@ -51,6 +51,17 @@ def explore(res, tier, seed, model_ok=True):
             idxs.append(len(scs)); scs.append(sc)
         groups.append((data, idxs))
         res.count('streams')
+    # handshake response in the same read as a lot of frame data (buffer-length boundaries of the header reader)
+    for size in ([16000, 16300, 16384, 16500, 20000, 65536, 70000] if tier == 'quick' else [15000, 16000, 16200, 16300, 16383, 16384, 16385, 16500, 20000, 40000, 65535, 65536, 65537, 70000, 140000]):
+        base = Scenario([], prate=0)
+        hs = base.good_reply()
+        body = b''.join(gen_core.serialise_item(rng, gen_core.Item('binary', gen_core.rand_bytes(rng, size)))) + gen_core.server_frame(1, b'tail')
+        data = hs + body
+        idxs = []
+        for chunks in ([data], [hs, body], [hs[:20], hs[20:] + body[:100], body[100:]], [data[:16384], data[16384:]], [data[:16385], data[16385:]]):
+            idxs.append(len(scs)); scs.append(Scenario(reads(limit_chunks(chunks)) + [('wait', 1, ('eof',))], {}, prate=0))
+        groups.append((data, idxs))
+        res.count('big_first_read')
     # exhaustive cut sets for short post-handshake streams
     exh = 0
     for i in range(6 if tier == 'quick' else 12):
